@@ -166,8 +166,9 @@ class Capacities(JSONField):
                 assert v >= 0
                 assert isinstance(v, int)
             try:
-                # will toss an exception if field is not defined
-                self.__getattribute__(k)
+                # only the fields created by the constructor can be set (not methods or class attributes)
+                if k not in self.__dict__:
+                    raise AttributeError(k)
                 self.__setattr__(k, v)
             except AttributeError:
                 report = f"Unable to set field {k} of capacity, no such field available "\
@@ -431,8 +432,9 @@ class Labels(JSONField):
             # strings or lists of strings only: list elements are type-checked too
             assert isinstance(v, str) or (isinstance(v, list) and all(isinstance(i, str) for i in v))
             try:
-                # will toss an exception if field is not defined
-                self.__getattribute__(k)
+                # only the fields created by the constructor can be set (not methods or class attributes)
+                if k not in self.__dict__:
+                    raise AttributeError(k)
                 if self.VALIDATORS.get(k, None) is not None:
                     if isinstance(v, list):
                         for i in v:
